@@ -23,6 +23,7 @@ EXPLANATION = (
     "the number of positional-capable parameters (kind-count arithmetic over list lengths); keyword handling, bound "
     "methods and the ignore list. Agreement with Signature.bind over ALL signatures and call shapes is an enumeration "
     "argument that this family does not make; any other shape of filter_args is reported undecidable, never a violation."
+    " The caller's values are rendered (repr / formatting) only on the raising paths of filter_args."
 )
 ASSUMPTIONS = [
     "reference fact: the five members of inspect._ParameterKind of the running interpreter",
